@@ -34,6 +34,14 @@ _CUR = [None]           # state in which array definitions are recorded (set by 
 LAMBDA_MODE = [False]   # True: z3 Lambda terms; False: fresh array constant + pointwise defining axiom
 
 
+def forall_p(vars_, body, pats):
+    """ForAll with explicit patterns when z3 accepts them (patterns may not contain lambdas/ites)"""
+    try:
+        return z3.ForAll(vars_, body, patterns=pats)
+    except z3.Z3Exception:
+        return z3.ForAll(vars_, body)
+
+
 def lam(vars_, body):
     """array defined pointwise: A[vars] == body"""
     if LAMBDA_MODE[0] or _CUR[0] is None:
@@ -484,8 +492,8 @@ def subscript_load(eng, st, base, sl, node):
         iv = eng.ev(sl, st)
         i = eng.norm_index(st, to_int(iv), n, node)
         v = eng.list_get(st, base, i)
-        if is_ref_kind(v.k):
-            st.assume(z3.And(v.t >= 0, v.t < st.heap.alloc))
+        if is_ref_kind(v.k) and st.ghost.get('qdepth', 0) == 0:
+            st.assume(z3.And(v.t >= 0, v.t < st.heap.bound('el:ref')))
         return v
     if head == 'arr':
         return arr_load(eng, st, base, sl, node)
@@ -1147,14 +1155,14 @@ def cnt(eng, st, arr=None):
     if key not in st.ghost:
         st.ghost[key] = True
         k, m, n = z3.Int(fresh_name('ck')), z3.Int(fresh_name('cm')), z3.Int(fresh_name('cn'))
-        st.pc.append(z3.ForAll([k], f(arr, k, 0) == 0, patterns=[f(arr, k, 0)]))
+        st.pc.append(forall_p([k], f(arr, k, 0) == 0, [f(arr, k, 0)]))
         body = z3.Implies(z3.And(n == m + 1, m >= 0),
                           f(arr, k, n) == f(arr, k, m) + z3.If(z3.Select(arr, m) == k, 1, 0))
         try:
             st.pc.append(z3.ForAll([k, m, n], body, patterns=[z3.MultiPattern(f(arr, k, m), f(arr, k, n))]))
         except z3.Z3Exception:
             st.pc.append(z3.ForAll([k, m, n], body))
-        st.pc.append(z3.ForAll([k, m], z3.Implies(m >= 0, f(arr, k, m) >= 0), patterns=[f(arr, k, m)]))
+        st.pc.append(forall_p([k, m], z3.Implies(m >= 0, f(arr, k, m) >= 0), [f(arr, k, m)]))
     return f
 
 
